@@ -141,6 +141,36 @@ def fixed_case(rng, base, idx):
         return recipe, {'class': 'line-longer-than-1MiB-no-constraint',
                         'data': data, 'policy': None, 'wide': False,
                         'global': False, 'nfiles': 1}
+    elif idx == 6:
+        # timestamp look-alikes whose FIELDS overflow datetime() (a seconds /
+        # year field of 20 digits under a matcher with fields of any width):
+        # OverflowError, not ValueError, inside the timestamp extraction -
+        # on lines the file-level seek probes (around the window boundary)
+        # and on the lines a search's own constraint reads before it
+        # activates (seeded C13-16)
+        t0 = G.datetime(2022, 1, 10, 0, 0, 0)
+        ls = [(t0 + G.timedelta(hours=i)).strftime(G.TS_FMT).encode()
+              + b' alpha %d\n' % i for i in range(48)]
+        huge_s = b'2022-01-09 10:00:99999999999999999999 alpha 777\n'
+        huge_y = b'99999999999999999999-01-01 00:00:00 alpha 778\n'
+        for at in (37, 36, 35, 12, 0):
+            ls.insert(at, huge_s if at % 2 else huge_y)
+        ls.insert(0, huge_s)
+        data = b''.join(ls)
+        cons = [{'current': '2022-01-12 12:00:00', 'days': 0, 'hours': 24},
+                {'current': '2022-01-12 12:00:00', 'days': 0, 'hours': 30}]
+        cdef = dict(sdef, tag='s1', constraints=[1])
+        skrun.materialise(d, {'x.log': data})
+        policy = rng.choice(POLICIES)
+        run = {'global': 0, 'decode_errors': policy,
+               'max_parallel_tasks': 4,
+               'adds': [[0, 'x.log', True], [1, 'x.log', True]],
+               'new_searcher': True}
+        recipe = {'dir': d, 'constraints': cons, 'defs': [sdef, cdef],
+                  'runs': [run], 'matcher': 'wide'}
+        return recipe, {'class': 'timestamp-fields-overflowing-datetime',
+                        'data': data, 'policy': policy, 'wide': True,
+                        'global': True, 'nfiles': 1}
     elif idx == 4:
         # EVERY search carries its own since constraint and an OLD line
         # (read while no search is enabled yet) is not valid UTF-8: under
@@ -191,7 +221,7 @@ def fixed_case(rng, base, idx):
 
 
 def make_case(rng, base, idx, big):
-    if idx in (1, 2, 3, 4, 5):
+    if idx in (1, 2, 3, 4, 5, 6):
         return fixed_case(rng, base, idx)
     data, cls = hostile(rng, big)
     if data[:2] == b'\x1f\x8b':
